@@ -39,6 +39,7 @@ structure InvR (p : Prog) (s : State) : Prop where
   verDirty : ∀ m, (s.get m).kind = .memo → (s.get m).running = false → (s.get m).st = .dirty →
     (s.get m).runs ≠ 0 → ∃ e ∈ (s.get m).seen, (s.get e.1).ver ≠ e.2.2
   verLe : ∀ w e, e ∈ (s.get w).seen → e.2.2 ≤ (s.get e.1).ver
+  srcData : ∀ w x, x ∈ (s.get w).sources → (s.get x).kind ≠ .eff
 
 /-- what a call `upd … m` (`k = m + 1`) leaves alone (`obs` and `running` are stated separately) -/
 structure Frame (s s' : State) (k : Nat) : Prop where
@@ -50,10 +51,13 @@ structure Frame (s s' : State) (k : Nat) : Prop where
   above : ∀ i, k ≤ i → (s'.get i).core = (s.get i).core ∧
     ((s'.get i).st = (s.get i).st ∨ (s'.get i).st = .dirty)
   log : LogOK s → LogOK s'
+  effCore : ∀ i, (s.get i).kind = .eff → (s'.get i).core = (s.get i).core
+  effD : ∀ i, (s.get i).kind = .eff → (s'.get i).dirty = true →
+    (s.get i).dirty = true ∨ ∃ y ∈ (s.get i).sources, (s.get y).ver < (s'.get y).ver
 
 theorem Frame.refl (s : State) (k : Nat) : Frame s s k :=
   ⟨rfl, fun _ => rfl, fun _ h => ⟨h, rfl⟩, fun _ => Nat.le_refl _,
-   fun _ _ => rfl, fun _ _ => ⟨rfl, .inl rfl⟩, fun h => h⟩
+   fun _ _ => rfl, fun _ _ => ⟨rfl, .inl rfl⟩, fun h => h, fun _ _ => rfl, fun _ _ h => .inl h⟩
 
 theorem Frame.trans {s s' s'' : State} {k : Nat} (h1 : Frame s s' k) (h2 : Frame s' s'' k) :
     Frame s s'' k where
@@ -78,6 +82,16 @@ theorem Frame.trans {s s' s'' : State} {k : Nat} (h1 : Frame s s' k) (h2 : Frame
       · exact .inr (b2.trans a2)
     · exact .inr b2
   log h := h2.log (h1.log h)
+  effCore i hk := (h2.effCore i ((h1.kind i).trans hk)).trans (h1.effCore i hk)
+  effD i hk hd := by
+    have hk' : (s'.get i).kind = .eff := (h1.kind i).trans hk
+    have hsrc : (s'.get i).sources = (s.get i).sources := (Node.core_fields (h1.effCore i hk)).2.2.1
+    rcases h2.effD i hk' hd with h | ⟨y, hy, hv⟩
+    · rcases h1.effD i hk h with h' | ⟨y, hy, hv⟩
+      · exact .inl h'
+      · exact .inr ⟨y, hy, Nat.lt_of_lt_of_le hv (h2.verMono y)⟩
+    · rw [hsrc] at hy
+      exact .inr ⟨y, hy, Nat.lt_of_le_of_lt (h1.verMono y) hv⟩
 
 theorem Frame.mono {s s' : State} {k k' : Nat} (h : Frame s s' k) (hk : k ≤ k') : Frame s s' k' :=
   { h with above := fun i hi => h.above i (Nat.le_trans hk hi) }
@@ -190,15 +204,15 @@ theorem scratch_env_congr {p : Prog} {env env' : Nat → Int}
       | eff b => simp only [funext ih]
 
 /-- a clean node holds its from-scratch value -/
-theorem InvR.clean_correct {p : Prog} {s : State} (h : InvR p s) (hwf : WF p = true)
-    (hne : noEff p = true) :
-    ∀ m, m < p.length → (s.get m).st = .clean → (s.get m).val = some (specVal p s m) := by
+theorem InvR.clean_correct {p : Prog} {s : State} (h : InvR p s) (hwf : WF p = true) :
+    ∀ m, m < p.length → (s.get m).kind ≠ .eff → (s.get m).st = .clean →
+      (s.get m).val = some (specVal p s m) := by
   intro m
   induction m using Nat.strongRecOn with
   | _ m ih =>
-    intro hm hst
+    intro hm hne hst
     cases hk : (s.get m).kind with
-    | eff => exact absurd hk (h.kind_ne_eff hne m)
+    | eff => exact absurd hk hne
     | sig =>
       obtain ⟨v, hv⟩ := (h.sigOk m hm hk).2.2
       obtain ⟨v0, hd⟩ := h.sig_def hm hk
@@ -218,9 +232,10 @@ theorem InvR.clean_correct {p : Prog} {s : State} (h : InvR p s) (hwf : WF p = t
           rw [h.srcSeen m hk hrun]; exact List.mem_map_of_mem he
         have hlt := h.srcLt m e.1 hsrc
         have hsub : m ∈ (s.get e.1).subs := (h.edge e.1 m).2 hsrc
+        have hdat := h.srcData m e.1 hsrc
         have hcl : (s.get e.1).st = .clean := by
           cases hk1 : (s.get e.1).kind with
-          | eff => exact absurd hk1 (h.kind_ne_eff hne e.1)
+          | eff => exact absurd hk1 hdat
           | sig => exact (h.sigOk e.1 (by omega) hk1).1
           | memo =>
             cases hs1 : (s.get e.1).st with
@@ -229,13 +244,13 @@ theorem InvR.clean_correct {p : Prog} {s : State} (h : InvR p s) (hwf : WF p = t
             | dirty => exact absurd hst (h.closed e.1 m hk1 (by rw [hs1]; simp) hsub hk)
         have hnr : (s.get e.1).running = false := by
           cases hk1 : (s.get e.1).kind with
-          | eff => exact absurd hk1 (h.kind_ne_eff hne e.1)
+          | eff => exact absurd hk1 hdat
           | sig => exact (h.sigOk e.1 (by omega) hk1).2.1
           | memo =>
             cases hr : (s.get e.1).running with
             | false => rfl
             | true => exact absurd hcl (h.runNC e.1 hk1 hr)
-        have hv := ih e.1 hlt (by omega) hcl
+        have hv := ih e.1 hlt (by omega) hdat hcl
         rcases h.srcVal m hk hrun hnd e he with h1 | h1
         · rw [hnr] at h1; cases h1
         · rw [hv] at h1; exact Option.some.inj h1
